@@ -569,8 +569,26 @@ def check_matrix(case):
 
 
 def families(tier):
+  from harness import c04_ds, c04_local
   chk = check if tier == 'quick' else check_thorough
   return [
+      # the granularity assumption itself: a datastore call is one atomic step
+      core.Family('ds_atomic', c04_ds.check if tier == 'quick' else
+                  c04_ds.check_thorough, strategy=c04_ds.strategy,
+                  budget={'quick': 320, 'thorough': 4000},
+                  shards={'quick': 16, 'thorough': 16},
+                  required_classes=('sqlmem', 'ram',
+                                    'switched_inside_a_datastore_call',
+                                    'all_interleavings_enumerated')),
+      # in-process clients of the endpoint-less client library, one per thread
+      core.Family('local_clients', c04_local.check if tier == 'quick' else
+                  c04_local.check_thorough, strategy=c04_local.strategy,
+                  budget={'quick': 64, 'thorough': 1200},
+                  shards={'quick': 16, 'thorough': 16},
+                  required_classes=('local_clients',
+                                    'preempted_read_modify_write',
+                                    'lkind_meas', 'lkind_suggest',
+                                    'lkind_create_or_load')),
       core.Family('pair_matrix', check_matrix if tier == 'quick' else
                   check_matrix_thorough, enumerate=enum_matrix,
                   shards={'quick': 16, 'thorough': 16},
